@@ -1,7 +1,7 @@
 (** Property C06 — time-to-idle: no entry is observable after tti without an access.
     [rc_acc] of the reference cell is the clock reading of the most recent insert, update or
     successful get; contains_key and iteration never enter it. *)
-From MM Require Import Contract.Trace Contract.UnsyncTrace Contract.SyncTrace Contract.Glue
+From MM Require Import Contract.Trace Contract.UnsyncTrace Contract.SyncTrace Contract.Glue Contract.Deadline
   Spec.HistoryFacts Unsync.UInvDefs.
 
 Theorem C06_unsync : forall c ops, cfg_ok c -> N.of_nat (length ops) < 2 ^ 24 ->
@@ -37,6 +37,47 @@ Proof. exact iter_is_no_access_s. Qed.
 Theorem C06_other_leaves_reference : forall f now r, rstep f now r AOther = r.
 Proof. exact rstep_other. Qed.
 
+(** end to end, for EVERY history: a lookup issued at or after the deadline of the key's
+    reference cell shows nothing for the key — get, contains_key and iteration alike, on both
+    caches, whatever maintenance ran in between ([past_deadline] = insert time + ttl <= now or
+    last access + tti <= now; the C06 disjunct is the one this property is about) *)
+Theorem C06_deadline_reached : forall (ttl : option N) d now (c : rcell),
+  rc_acc c + d <= now -> past_deadline ttl (Some d) now c.
+Proof. intros; right; eauto. Qed.
+Theorem C06_unsync_get_past_deadline : forall c ops k r run rc run' res,
+  cfg_ok c -> N.of_nat (length (ops ++ [UGet k])) < 2 ^ 24 ->
+  u_ref_after c ∅ urun_init ops = Some (r, run) ->
+  r !! k = Some rc -> past_deadline (uc_ttl c) (uc_tti c) (ur_now run) rc ->
+  ustep c run (UGet k) = Ok (run', OVal res) -> res = None.
+Proof. exact u_get_past_deadline. Qed.
+Theorem C06_unsync_contains_past_deadline : forall c ops k r run rc run' b,
+  cfg_ok c -> N.of_nat (length (ops ++ [UContains k])) < 2 ^ 24 ->
+  u_ref_after c ∅ urun_init ops = Some (r, run) ->
+  r !! k = Some rc -> past_deadline (uc_ttl c) (uc_tti c) (ur_now run) rc ->
+  ustep c run (UContains k) = Ok (run', OBool b) -> b = false.
+Proof. exact u_contains_past_deadline. Qed.
+Theorem C06_unsync_iter_past_deadline : forall c ops k r run rc run' l,
+  cfg_ok c -> N.of_nat (length (ops ++ [UIter])) < 2 ^ 24 ->
+  u_ref_after c ∅ urun_init ops = Some (r, run) ->
+  r !! k = Some rc -> past_deadline (uc_ttl c) (uc_tti c) (ur_now run) rc ->
+  ustep c run UIter = Ok (run', OList l) -> forall v, (k, v) ∉ l.
+Proof. exact u_iter_past_deadline. Qed.
+Theorem C06_sync_get_past_deadline : forall c ops k r run rc run' res,
+  s_ref_after c ∅ srun_init ops = Some (r, run) ->
+  r !! k = Some rc -> past_deadline (sc_ttl c) (sc_tti c) (sr_now run) rc ->
+  sstep c run (SGet k) = Ok (run', SOVal res) -> res = None.
+Proof. exact s_get_past_deadline. Qed.
+Theorem C06_sync_contains_past_deadline : forall c ops k r run rc run' b,
+  s_ref_after c ∅ srun_init ops = Some (r, run) ->
+  r !! k = Some rc -> past_deadline (sc_ttl c) (sc_tti c) (sr_now run) rc ->
+  sstep c run (SContains k) = Ok (run', SOBool b) -> b = false.
+Proof. exact s_contains_past_deadline. Qed.
+Theorem C06_sync_iter_past_deadline : forall c ops k r run rc run' l,
+  s_ref_after c ∅ srun_init ops = Some (r, run) ->
+  r !! k = Some rc -> past_deadline (sc_ttl c) (sc_tti c) (sr_now run) rc ->
+  sstep c run SIter = Ok (run', SOList l) -> forall v, (k, v) ∉ l.
+Proof. exact s_iter_past_deadline. Qed.
+
 Check C06_justified_within_tti : forall ttl d now r k v,
   justified ttl (Some d) now r k v -> exists c, r !! k = Some c /\ now < rc_acc c + d.
 Print Assumptions C06_unsync.
@@ -50,3 +91,10 @@ Print Assumptions C06_iter_is_no_access_unsync.
 Print Assumptions C06_contains_is_no_access_sync.
 Print Assumptions C06_iter_is_no_access_sync.
 Print Assumptions C06_other_leaves_reference.
+Print Assumptions C06_deadline_reached.
+Print Assumptions C06_unsync_get_past_deadline.
+Print Assumptions C06_unsync_contains_past_deadline.
+Print Assumptions C06_unsync_iter_past_deadline.
+Print Assumptions C06_sync_get_past_deadline.
+Print Assumptions C06_sync_contains_past_deadline.
+Print Assumptions C06_sync_iter_past_deadline.
